@@ -39,7 +39,8 @@ class C03(Prop):
         rows = C.read_jsonl(p)
         cases = [r for r in rows if r.get("kind") == "c03"]
         races = servsched.race_reports(out)
-        if not cases or (rc != 0 and not races):
+        crash = C.panic_excerpt(out) if rc != 0 else None
+        if (not cases and not crash) or (rc != 0 and not races and not crash):
             raise RuntimeError("C03 harness did not run: rc=%s\n%s" % (rc, out[-2500:]))
         for r in cases:
             b = r["backend"]
@@ -51,7 +52,7 @@ class C03(Prop):
         chunked = [r for r in C.read_jsonl(p2) if r.get("kind") == "chunked"]
         if rc != 0 or not chunked:
             raise RuntimeError("C03 chunked-coding harness did not run: rc=%s\n%s" % (rc, out[-2000:]))
-        return {"cases": cases, "races": races, "proxy_races": [r for r in rows if r.get("kind") == "race"], "chunked": chunked}
+        return {"cases": cases, "races": races, "proxy_races": [r for r in rows if r.get("kind") == "race"], "chunked": chunked, "crash": crash}
 
     @staticmethod
     def has_body(b):
@@ -59,6 +60,11 @@ class C03(Prop):
 
     def oracle(self, ctx, obs):
         res = []
+        if obs.get("crash"):
+            import re
+            m = re.search(r"(panic: [^\n]*|fatal error: [^\n]*)", obs["crash"])
+            res.append(("agent-crashed", "the agent's response path (run in-process under the race detector) ended the process: %s" % (m.group(1) if m else "see excerpt"),
+                        {"driver": "go test -race TestVerifC03", "output_excerpt": obs["crash"]}))
         for sig, txt in obs["races"]:
             res.append((sig, "the race detector reported a data race in the agent's response path", {"report": txt, "driver": "go test -race TestVerifC03"}))
         for r in obs["proxy_races"]:
@@ -94,7 +100,7 @@ class C03(Prop):
                     res.append(("body-changed:%s%s" % (b["framing"], tag), "body of %d bytes arrived as %d bytes" % (b["body_len"], cl["body_len"]), rp))
             elif cl["body_len"] != 0:
                 res.append(("body-on-bodyless-response" + tag, "a %s/%d response arrived with %d body bytes" % (b["method"], b["status"], cl["body_len"]), rp))
-            if self.has_body(b) and b["framing"] == "chunked":
+            if self.has_body(b) and (b["framing"] == "chunked" or (b["proto"] == "h2c" and b["framing"] == "length")):
                 et = collections.OrderedDict()
                 for n, v in b["declared_trailers"] + b["undeclared_trailers"]:
                     et.setdefault(canon(n), []).append(v)
@@ -113,7 +119,7 @@ class C03(Prop):
         for r in rows:
             b, cl = r["backend"], r["client"]
             hb = self.has_body(b)
-            chunked = hb and b["framing"] == "chunked"
+            chunked = hb and (b["framing"] == "chunked" or (b["proto"] == "h2c" and b["framing"] == "length"))   # an h2 response may carry trailers next to a Content-Length
             decl = b["declared_trailers"] if chunked else []
             und = b["undeclared_trailers"] if chunked else []
             br = "{| br_interim := %s; br_status := %d%%Z; br_fields := %s; br_body := (0, EmptyString); br_declared := %s; br_undeclared := %s |}" % (
